@@ -399,6 +399,54 @@ void entry() { g_b[0].a = (uint)g_a[0].v.x + g_raw.Load<B>(0).b; }
 Pipeline Test { ComputeShader = entry; }
 "#,
     );
+    // rejected by a back end / late pass with several candidate culprits: the reported one must not depend on order
+    add(
+        "rejected-msl-several-unsupported-intrinsics",
+        Mode::All,
+        r#"
+RWByteAddressBuffer g_out;
+uint helper_a(uint v) { return WaveActiveCountBits(v > 1u) + WavePrefixCountBits(v > 2u); }
+[numthreads(32, 1, 1)]
+void CSMAIN(uint3 id : SV_DispatchThreadID) {
+    bool e = WaveActiveAllEqual(id.x);
+    uint4 b = WaveActiveBallot(id.x > 3u);
+    uint s = WavePrefixSum(id.x) + WaveActiveSum(id.x) + WaveReadLaneFirst(id.x) + WaveActiveBitOr(id.x) + helper_a(id.x);
+    double d = (double)id.x;
+    g_out.Store(0, s + b.x + (e ? 1u : 0u) + (uint)d);
+}
+Pipeline P { ComputeShader = CSMAIN; }
+"#,
+    );
+    add(
+        "rejected-enum-range-several-outliers",
+        Mode::NoPipeline,
+        "enum E { A = 4294967296, B = 12884901888, C = -21474836480, D = 5, F = 8589934592 };\nint f(E e) { return (int)e; }\n",
+    );
+    add(
+        "rejected-several-undefined-names-and-types",
+        Mode::NoPipeline,
+        "struct S { float a; };\nfloat f(S s) { return s.b + s.c + undefined_one + undefined_two; }\nUnknownType g(OtherUnknown x) { return x; }\n",
+    );
+    // names that look like the generators' own temporaries / internal prefixes, with out / inout parameters (the MSL
+    // generator synthesises wrapper parameters and locals for them): repeated compilation must not number them anew
+    add(
+        "generator-internal-looking-names",
+        Mode::All,
+        r#"
+static float s_acc = 0.0;
+void whole(out float p, float __p, inout float q, float __q) { p = __p + s_acc; q += __q; s_acc += 1.0; }
+void part(inout float3 v, float __v, out float2 __w, float __whole) { v.x += __v; __w = v.xy * __whole; }
+float __tmp(float __x) { float __y = __x; float _0 = __y; float x_0 = _0; return x_0; }
+RWByteAddressBuffer g_out;
+[numthreads(1, 1, 1)]
+void CSMAIN() {
+    float a; float b = 1.0; float3 c = float3(1.0, 2.0, 3.0); float2 d;
+    whole(a, 2.0, b, 3.0); whole(b, a, a, b); part(c, a, d, b); part(c, c.x, c.xy, c.z);
+    g_out.Store(0, asuint(a + b + c.x + d.y + __tmp(1.0)));
+}
+Pipeline P { ComputeShader = CSMAIN; }
+"#,
+    );
     for (name, src) in [
         ("rejected-undefined-name", "static float a = 1.0;\nstatic float b = 2.0;\nfloat f() { return a + b + c; }\n"),
         ("rejected-ambiguous-overload", "float f(float a, int b) { return a; }\nfloat f(int a, float b) { return b; }\nfloat g() { return f(1, 1); }\n"),
@@ -562,8 +610,14 @@ pub fn replay(ctx: &Ctx, body: &str) -> i32 {
     match (reference, a, b) {
         (Ok(r), Ok(a), Ok(b)) => {
             if a.result != b.result {
-                eprintln!("machinery error: the same schedule gives two results");
-                return 2;
+                // the harness controls every hash-iteration choice, so two results for one schedule mean state that
+                // survives from one compile to the next (or another uncontrolled source): a violation of C07 itself
+                acc.violation(Violation {
+                    signature: "nondeterministic|same-schedule-twice".into(),
+                    detail: format!("the same input compiled twice under the same iteration order gives two results: {}", first_diff(&a.result, &b.result)),
+                    replay: String::new(),
+                });
+                return finish_replay(ctx, &acc);
             }
             if a.result != r.result {
                 let devs: Vec<String> = a.points.iter().filter(|p| p.2 != 0).map(|p| p.1.clone()).collect();
